@@ -308,6 +308,26 @@ type ab struct {
 	B string `json:"b"`
 }
 
+// Targets that bring their own unmarshalling (the alternative spelling of a plain target): the JSON form of the
+// source, its text, its bytes. Seeded change c17h gave the JSON decoder ONE scratch buffer per compiled decoder,
+// which concurrent decodes into the same such type then shared.
+type jsonT struct{ Raw string }
+
+func (j *jsonT) UnmarshalJSON(b []byte) error { j.Raw = string(b); return nil }
+
+type textT struct{ Txt string }
+
+func (t *textT) UnmarshalText(b []byte) error { t.Txt = string(b); return nil }
+
+type binT struct{ Bin string }
+
+func (t *binT) UnmarshalBinary(b []byte) error { t.Bin = fmt.Sprintf("%x", b); return nil }
+
+type withJSON struct {
+	J jsonT `json:"j"`
+	N int   `json:"n"`
+}
+
 func pool() []pair {
 	vals := map[string]func() types.Value{
 		"str7":     func() types.Value { return types.NewString("7") },
@@ -368,6 +388,8 @@ func pool() []pair {
 		"map[string][]int": reflect.TypeOf((*map[string][]int)(nil)), "map[string]struct": reflect.TypeOf((*map[string]ab)(nil)),
 		"map[string]map[string]int": reflect.TypeOf((*map[string]map[string]int)(nil)), "map[string]*struct": reflect.TypeOf((*map[string]*ab)(nil)),
 		"[][]int": reflect.TypeOf((*[][]int)(nil)),
+		"jsonT": reflect.TypeOf((*jsonT)(nil)), "textT": reflect.TypeOf((*textT)(nil)), "binT": reflect.TypeOf((*binT)(nil)),
+		"[]jsonT": reflect.TypeOf((*[]jsonT)(nil)), "map[string]jsonT": reflect.TypeOf((*map[string]jsonT)(nil)),
 	}
 	var out []pair
 	for vn, v := range vals {
@@ -514,6 +536,46 @@ func oracle(c *lib.Ctx, r *lib.RNG) []lib.OracleFail {
 		wg.Wait()
 		c.Evaluations += 16 * 200
 	}
+	// concurrent, ONE target type at a time: every goroutine decodes random values into the same type, so that
+	// whatever a compiled decoder of that type keeps between calls is shared by all of them at once
+	byType := map[reflect.Type][]int{}
+	var hot []reflect.Type
+	for w, p := range ps {
+		if _, ok := byType[p.typ]; !ok {
+			hot = append(hot, p.typ)
+		}
+		byType[p.typ] = append(byType[p.typ], w)
+	}
+	for k := 0; k < c.Scale(len(hot), 4*len(hot)); k++ {
+		t := hot[k%len(hot)]
+		ws := byType[t]
+		dec := types.VerifNewDecoder()
+		var wg sync.WaitGroup
+		var mu sync.Mutex
+		said := false
+		for g := 0; g < 12; g++ {
+			rr := r.Fork()
+			wg.Add(1)
+			go func() {
+				defer wg.Done()
+				for j := 0; j < 120; j++ {
+					w := ws[rr.Intn(len(ws))]
+					got := decodeOnce(dec, ps[w])
+					if got != cold[w] {
+						mu.Lock()
+						if !said {
+							said = true
+							add("history-dependent-decode", fmt.Sprintf("%s (concurrent, one target type): cold=%q, got=%q", ps[w].name, cold[w], got), fmt.Sprintf("12 goroutines × 120 random decodes into %v on one fresh assembler", t))
+						}
+						mu.Unlock()
+					}
+				}
+			}()
+		}
+		wg.Wait()
+		c.Evaluations += 12 * 120
+	}
+	c.Hit("oracle-concurrent-one-type")
 	c.Hit("oracle-warm-rounds")
 	return fails
 }
